@@ -313,4 +313,16 @@ Theorem C04_no_stored_secret_accepts_no_presented_secret :
     refused (open current cfg d tun rt c r) = true.
 Proof. exact no_stored_secret. Qed.
 Print Assumptions C04_no_stored_secret_accepts_no_presented_secret.
+
+(* (14) (2) is a statement about each REQUEST (`open` is a function of the request; it has no per-connection memory): a connection may
+   send any number of requests, every refused one has its own failure acknowledgement, and a legitimate one afterwards is served.
+   Histories (3) quantify over event lists in which the same connection id occurs any number of times.  Witness: *)
+Theorem C04_failure_ack_per_request_witness :
+  let s0 := init ex_db2 (fun _ => None) in
+  open current ex_cfg (s_db s0) (s_tun s0) (s_rt s0) ex_src {| r_mid := 1; r_tid := 7; r_secret := 999; r_resume := false |} = Refuse true /\
+  open current ex_cfg (s_db s0) (s_tun s0) (s_rt s0) ex_src {| r_mid := 2; r_tid := 7; r_secret := 0; r_resume := false |} = Refuse true /\
+  s_tun (run current ex_cfg s0 ex_same_conn) 7 = Some {| b_mid := 1; b_src := Some 3001; b_tgt := None |} /\
+  s_log (run current ex_cfg s0 ex_same_conn) = [(3001, 7, true)].
+Proof. exact failure_ack_per_request_witness. Qed.
+Print Assumptions C04_failure_ack_per_request_witness.
 Close Scope N_scope.
